@@ -285,7 +285,8 @@ def stftEntry (j : Json) : Except String Json := do
     pure <| Json.mkObj [("model", Json.mkObj [("plan", planJ), ("run", runJ)]),
       ("spec", Json.mkObj [("ola_kwargs", kwSpec), ("func_inputs", funcSpec), ("covered", covered)])]
 
-def handle (entry : String) (j : Json) : Except String Json := do
+/-- one call taken alone: the payload depends on nothing but the request `j` of that call -/
+def handleCall (entry : String) (j : Json) : Except String Json := do
   match entry with
   | "ola" =>
     let blks ← getList (getList getRat) (← field j "blks")
@@ -323,5 +324,16 @@ def handle (entry : String) (j : Json) : Except String Json := do
       ("n_blocks", natToJson blks.length)]
   | "stft" => stftEntry j
   | _ => throw s!"C09: unknown entry {entry}"
+
+/-- `"hist"`: a history of calls sharing argument objects on the Python side.  Each call is answered
+    by `handleCall` on its own request (the argument VALUES as they were before the first call): the
+    models are pure functions, so no state can flow from one call to the next here. -/
+def handle (entry : String) (j : Json) : Except String Json := do
+  match entry with
+  | "hist" =>
+    let calls ← getArr (← field j "calls")
+    let outs ← calls.mapM fun c => do handleCall (← getStr (← field c "entry")) c
+    pure <| Json.mkObj [("calls", Json.arr outs)]
+  | _ => handleCall entry j
 
 end ALV.Driver.C09
